@@ -325,21 +325,25 @@ impl CodegenContext {
         let path: IdentifierPath = "segments".into();
 
         let segments = std::mem::replace(&mut self.segments, IndexMap::new());
+        let mut result = Ok(());
         for (name, segment) in &segments {
             let path = path.join(name);
 
-            self.add_symbol(
-                path.join("start"),
-                self.symbol(None, segment.range().start as i64, SymbolType::Constant),
-            )?;
-
-            self.add_symbol(
-                path.join("end"),
-                self.symbol(None, segment.range().end as i64, SymbolType::Constant),
-            )?;
+            let range = segment.range();
+            for (id, value) in [("start", range.start), ("end", range.end)] {
+                if let Err(e) = self.add_symbol(
+                    path.join(id),
+                    self.symbol(None, value as i64, SymbolType::Constant),
+                ) {
+                    // (don't return just yet, the segments need to be put back)
+                    if result.is_ok() {
+                        result = Err(e);
+                    }
+                }
+            }
         }
         self.segments = segments;
-        Ok(())
+        result
     }
 
     fn after_pass(&mut self) -> CoreResult<()> {
@@ -423,11 +427,14 @@ impl CodegenContext {
                             || existing.read_only() != symbol.read_only()
                             || (existing.pass_idx == symbol.pass_idx && existing.read_only())
                         {
-                            let span = symbol.span.expect("no span provided");
-                            return Err(Diagnostic::error()
-                                .with_message(format!("cannot redefine symbol: {}", &path))
-                                .with_labels(vec![span.to_label()])
-                                .into());
+                            // (Symbols that are generated by the assembler, e.g. 'segments.default.start', have no
+                            // location of their own. When one of those clashes with a symbol from the source, point there.)
+                            let mut diag = Diagnostic::error()
+                                .with_message(format!("cannot redefine symbol: {}", &path));
+                            if let Some(span) = symbol.span.or(existing.span) {
+                                diag = diag.with_labels(vec![span.to_label()]);
+                            }
+                            return Err(diag.into());
                         }
 
                         // If the symbol already existed but with a different value,
@@ -1667,7 +1674,11 @@ pub fn codegen(
                 errors = e.with_code_map(&ctx.tree.code_map);
             }
         }
-        ctx.after_pass().expect("Could not finalize pass");
+        // (Registering the symbols of the segments may clash with a symbol from the source, e.g. a label with the path
+        // 'segments.default.start'. That is an error like any other.)
+        if let Err(e) = ctx.after_pass() {
+            errors.extend(e);
+        }
 
         #[cfg(mos_verif)]
         {
